@@ -502,7 +502,7 @@ def check(prop, tier, seed, replay=None):
     if tier == "quick":
         maxf, maxitems, rs = (3, 2, [seed, seed + 1]) if not mutants else (2, 2, [seed])
     else:
-        maxf, maxitems, rs = (4, 2, list(range(seed, seed + 6))) if not mutants else (3, 2, [seed, seed + 1])
+        maxf, maxitems, rs = (5, 2, list(range(seed, seed + 4))) if not mutants else (4, 2, [seed, seed + 1])
     res, vecs = vectors(ALL_KINDS, maxf, maxitems, mutants, sorted(set(sum(INVS.values(), [])) if not mutants else INVS[prop]))
     run.add_tlc(f"MC TdfCodecMC MaxF={maxf} MaxItems={maxitems} mutants={mutants}", res)
     run.cov["exhaustive"] = True
